@@ -152,6 +152,12 @@ def _lazy():
                 shape_of=lambda p: (p["d"],), tags=frozenset({"eigen", "diag"}), weight=3))
     _reg(Family("PhasedISwapPowS", 2, es({"p": exponents(), "e": exponents(), "s": shifts()}),
                 lambda p: cirq.PhasedISwapPowGate(phase_exponent=p["p"], exponent=p["e"], global_shift=p["s"]), weight=2))
+    # IonQ native gates over the whole real parameter line (the docstring matrices are defined for any real theta; the shared
+    # rows only draw the hardware range theta in [0, 0.25] / [-0.25, 0.25])
+    wide = st.one_of(exponents(), st.integers(-2000, 2000).map(lambda k: k / 1000.0))
+    _reg(Family("IonqMSWide", 2, es({"phi0": exponents(), "phi1": exponents(), "theta": wide}),
+                lambda p: __import__("cirq_ionq").MSGate(phi0=p["phi0"], phi1=p["phi1"], theta=p["theta"]), weight=2))
+    _reg(Family("IonqZZWide", 2, es({"theta": wide}), lambda p: __import__("cirq_ionq").ZZGate(theta=p["theta"])))
     _reg(Family("CPhase", 2, es({"r": rads()}), lambda p: cirq.cphase(p["r"])))
     _reg(Family("Givens", 2, es({"r": rads()}), lambda p: cirq.givens(p["r"])))
     _reg(Family("RISwap", 2, es({"r": rads()}), lambda p: cirq.riswap(p["r"])))
